@@ -58,7 +58,11 @@ func (e *stepLongEngine) generate(r *rng, n int, tier string, emit func(string))
 		}
 	}
 	for p := range stepRawPrograms {
-		for _, script := range []string{"n", "x", "nx", "nnx", "nnnx", "nnnnx", "nnnnnx", "nnnnnnx", "ix", "iix", "iiix", "iiiix", "iiiiix", "iiiiiix", "xix", "inx", "nix", "o", "io", "iio"} {
+		scripts := []string{"n", "xix", "inx", "nix", "o", "io", "iio"}
+		for k := 0; k <= 14; k++ { // Next / Out answered on the k-th form the stepper is shown, NoOp or In before
+			scripts = append(scripts, strings.Repeat("n", k)+"x", strings.Repeat("i", k)+"x", strings.Repeat("n", k)+"o", strings.Repeat("i", k)+"xx")
+		}
+		for _, script := range scripts {
 			emit(fmt.Sprintf("prog=%d n=1 s=%s", 200+p, script))
 		}
 	}
